@@ -937,14 +937,14 @@ class FlippedEncoding(LazyIndexMap):
     def flip(self, axis=0):
         if isinstance(axis, np.ndarray):
             if axis.size == 1:
-                axis = (axis.item(),)
+                axes = (axis.item(),)
             else:
-                axis = tuple(axis)
+                axes = tuple(axis)
         elif isinstance(axis, int):
             axes = (axis,)
         else:
             axes = tuple(axis)
-        return _flipped(self, self._axes + axes)
+        return _flipped(self._data, self._axes + axes)
 
     def _flip(self, axes):
         raise RuntimeError("Should not be here")
